@@ -637,7 +637,7 @@ def _run_ops(sc, res, sessions, ctx, z3cap):
                         S.solver.int_array(op.get("n", 2), op["lo"], op["hi"])
                     else:
                         S.solver.add_answer_key(5)
-                except (ValueError, TypeError) as e:
+                except Exception as e:  # whatever its type, the call was rejected
                     res.hit("fault:api_call_rejected:" + w)
                     res.log("op", n_op, "rejected", w, type(e).__name__)
                     continue
